@@ -471,6 +471,39 @@ fn c05_scratch<T: Elem>(st: &mut Stats, args: &Args, lengths: &[usize]) {
             st.set_distinct(&format!("scr|{}|{}|{}", pk.name(), T::NAME, n));
         }
     }
+    // scratch lengths must not depend on what the planner planned before either: two long-lived planners per kind, one
+    // primed with large lengths and then swept upwards, one swept downwards
+    for &pk in &ALL_PK {
+        for pass in 0..2 {
+            let mut p = match AnyPlanner::<T>::new(pk) { Some(p) => p, None => continue };
+            let mut order: Vec<usize> = lengths.iter().copied().filter(|n| *n >= 2 && *n <= 8192).collect();
+            if pass == 0 {
+                for big in [65536usize, 49152, 32768 * 5, 8192] {
+                    let _ = try_plan(&mut p, big, if big % 5 == 0 { Dir::Inv } else { Dir::Fwd }, false);
+                }
+            } else {
+                order.reverse();
+            }
+            for (i, &n) in order.iter().enumerate() {
+                let dir = if (i + pass) % 2 == 0 { Dir::Fwd } else { Dir::Inv };
+                let fft = match try_plan(&mut p, n, dir, false) { Ok(f) => f, Err(_) => { st.inc("plan_panics_reported_by_C04"); break } };
+                let limit = 12 * n + 64;
+                let lens = [fft.get_inplace_scratch_len(), fft.get_outofplace_scratch_len(), fft.get_immutable_scratch_len()];
+                st.inc("evaluations");
+                st.inc("scratch_reports_from_planners_with_history");
+                let worst = *lens.iter().max().unwrap();
+                if worst > limit {
+                    let case = format!("planner={} type={} dir={} n={} via=long-lived planner ({})", pk.name(), T::NAME, dname(dir), n,
+                        if pass == 0 { "primed with 65536, 49152, 163840, 8192, then ascending" } else { "descending" });
+                    st.violation("C05", "scratch", &case, vec![
+                        ("what", J::s("advertised scratch length exceeds 12n+64 for a transform returned by a planner with history")),
+                        ("scratch_lens", J::s(&format!("{:?}", lens))),
+                        ("limit", J::u(limit)),
+                    ]);
+                }
+            }
+        }
+    }
     let _ = args;
 }
 
@@ -669,8 +702,8 @@ pub fn run_c06(args: &Args) {
     let lengths = crate::shape::lengths_from_args(
         args,
         if t { 8192 } else { 2048 },
-        if t { 1 << 22 } else { 1 << 18 },
-        if t { 300 } else { 90 },
+        if t { 1 << 20 } else { 1 << 18 },
+        if t { 200 } else { 90 },
         0xC06,
     );
     let mut lengths = lengths;
@@ -678,7 +711,7 @@ pub fn run_c06(args: &Args) {
     // is oracle-free, so every prime up to the bound is affordable
     if args.get("only-n").is_none() && args.get("ns").is_none() {
         let dense_max = args.get_usize("dense-max").unwrap_or(if t { 8192 } else { 2048 });
-        let prime_max = args.get_usize("prime-max").unwrap_or(if t { 131072 } else { 20000 });
+        let prime_max = args.get_usize("prime-max").unwrap_or(if t { 65536 } else { 20000 });
         let primes: Vec<usize> = (dense_max + 1..=prime_max).filter(|n| crate::cases::is_prime(*n)).collect();
         st.add("primes_in_sweep", primes.iter().enumerate().filter(|(i, _)| crate::cases::mine(*i, args.shard)).count());
         lengths.extend(primes.iter().enumerate().filter(|(i, _)| crate::cases::mine(*i, args.shard)).map(|(_, n)| *n));
